@@ -59,7 +59,7 @@ def handle : List String → Option String
   | "c13tags" :: args => do
     let (c, rest) ← Driver.C11.ctx? args
     match rest with
-    | [sc] => do some (traceOut c (TraceQL.planTags c (← Driver.C11.parseScript sc)))
+    | [sc] => do some (traceOut c (TraceQL.planTags c "tempo_traces_kv_dist" (← Driver.C11.parseScript sc)))
     | _ => none
   | "c13tvalues" :: args => do
     let (c, rest) ← Driver.C11.ctx? args
